@@ -579,6 +579,7 @@ class VSocket:
     def _die(self, kind):
         if self.dead is None:
             self.dead = kind
+            del self.inbox[:]          # nothing more is ever delivered
             self.sched.ev('fault', (kind, self.sent, self.received))
             self.net.fault_time = self.sched.now
 
